@@ -451,7 +451,7 @@ func drawDisrupt(t *rapid.T, k dKnobs) *dScenario {
 	return s
 }
 
-var dMutKinds = []string{"podAnnotate", "nodeAnnotate", "nodeNotReady", "podEvent", "claimDelete", "nominate", "pdbBlock", "drift", "addPod", "podDelete"}
+var dMutKinds = []string{"podAnnotate", "nodeAnnotate", "nodeNotReady", "podEvent", "claimDelete", "nominate", "pdbBlock", "drift", "addPod", "podDelete", "queueProgress", "queueProgress"}
 
 func drawMut(t *rapid.T, l string, w *gen.SchedWorld) dMut {
 	m := dMut{Kind: rapid.SampledFrom(dMutKinds).Draw(t, l+"_mutKind")}
@@ -967,6 +967,24 @@ func (r *dRun) mutate(m dMut) {
 	now := w.Clock.Now()
 	c.Class("mut:" + m.Kind)
 	switch m.Kind {
+	case "queueProgress":
+		// the orchestration queue is its own controller: it keeps reconciling the commands in flight while the
+		// disruption controller computes / validates the next one. While the disruption controller's goroutine is
+		// parked on the fake clock the queue is reconciled synchronously (queue.Reconcile never waits on the clock;
+		// stepping the clock here would wake the parked controller and run the two truly concurrently)
+		if r.inCtrl.Load() {
+			cmds := r.queue.GetCommands()
+			sort.Slice(cmds, func(i, j int) bool { return cmds[i].Candidates[0].Name() < cmds[j].Candidates[0].Name() })
+			r.inCtrl.Store(false)
+			for _, cmd := range cmds {
+				r.inQueue.Store(true)
+				_, _ = r.queue.Reconcile(w.Ctx, cmd.Candidates[0].NodeClaim)
+				r.inQueue.Store(false)
+			}
+			r.inCtrl.Store(true)
+		} else {
+			r.runQueue()
+		}
 	case "podAnnotate":
 		if p := r.podAt(m.Target); p != nil {
 			if p.Annotations == nil {
